@@ -288,7 +288,7 @@ def make_case(rng):
 
 def run(sh):
     rng = gen.rng_for(sh.seed, PROP, sh.shard)
-    K = 25 if sh.tier == 'quick' else 1500
+    K = 25 if sh.tier == 'quick' else 600
     for it in range(K):
         run_sequence(sh, make_case(rng))
     for k, v in attach.COUNTS.items():
